@@ -26,11 +26,12 @@ func execSim(t *testing.T, c *Case, o RunOpts, maxSteps int, noHB bool, setup fu
 		MaxSteps: maxSteps,
 		Faults:   c.Faults,
 		// the failures the statement lists: creation, write, sync, seek, read
-		FaultKinds: map[string]bool{"tempdir": true, "tempfile": true, "encode": true, "sync": true, "seek": true, "decode": true},
-		KeepLog:    o.KeepLog,
-		Record:     true,
-		Expect:     o.Expect,
-		NoHB:       noHB,
+		// (whatever call performs them), never close/remove
+		FaultAll: true,
+		KeepLog:  o.KeepLog,
+		Record:   true,
+		Expect:   o.Expect,
+		NoHB:     noHB,
 	})
 	post := setup(sim)
 	sim.Run(t)
